@@ -23,7 +23,7 @@ CHECKS = {
  "C04": dict(
   technique="TLC model checking of a lock-granularity concurrent model (linearizability, deadlock freedom) + schedule replay on real threads + linearizability trace validation",
   level="model_checking", ref="5 C04",
-  text="UdpConc.tla models shard/peer-map RwLocks, Arc counts and per-thread program counters; TLC explores every interleaving of 3-thread programs (linearization-point ghost state, NoLostAnnounce, NoOrphanWrite, deadlock check) and must find the CHANGELOG race when the Arc guard is removed. TLC-generated schedules are replayed on the real TorrentMaps by a cooperative scheduler built on a feature-gated tracing RwLock wrapper; real yield points are also explored depth-first, randomly and with free-running threads; TLC checks every execution for linearizability and quiescent state.",
+  text="UdpConc.tla models shard/peer-map RwLocks with parking_lot's writer preference (an exclusive acquisition sets the writer bit, then waits for the readers; no reader is admitted meanwhile), Arc counts, per-thread program counters and scrapes as sequences of per-torrent units; TLC explores every interleaving of 3-thread programs (linearization-point ghost state, NoLostAnnounce, NoOrphanWrite, deadlock check), must find the CHANGELOG race when the Arc guard is removed and must find a deadlock when a scrape read-locks its shards recursively. TLC-generated schedules are replayed on the real TorrentMaps by a cooperative scheduler built on a feature-gated tracing RwLock wrapper; real yield points are also explored depth-first, randomly and with free-running threads; TLC checks every execution for linearizability and quiescent state.",
   note="Interleavings inside a critical section and memory-model effects below lock granularity are out of scope; cleaning is a sequence of per-torrent atomic units. " + TB),
  "C05": dict(
   technique="TLC model checking of ConnId.tla + boundary-grid replay on the real ConnectionValidator validated by TLC",
